@@ -44,9 +44,6 @@ pub fn rerun_hx(cfg: &HxCfg, history: &[Op], at: &str, aux: Option<&Vec<Op>>) ->
             fs.extend(drain_probe(&g, &m, false));
             fs.extend(drain_probe(&g, &m, true));
         }
-        if let Some(f) = hx::clone_exactness_finding(&g) {
-            fs.push(f);
-        }
         let h = history.to_vec();
         let mut runs = 0;
         let mut counters = Default::default();
